@@ -75,3 +75,75 @@ def setup_fo(I):
     return Ctx(self=p, _args=[arr_from_list([z3.Int("age")])], built=built, S=S, I=I)
 contract(f"{FO}.state_to_index", setup=setup_fo,
     ensures=common_posts(lambda c: [c.S - 1], lambda c: {"action": 2, "random_event": 2}))
+
+# ------------------------------------------------------------------ whole problem constructors (real __init__ incl. config validation, set-up hooks, spaces)
+# what the rest of the problem-level contracts ASSUME about the object (cost vector order, issuing function, limits) is what the constructor establishes
+def cfg_obj(I, target_cfg, fields):
+    mod, cls = target_cfg.rsplit(".", 1)
+    return Obj(I.load_module(mod).globals[cls], dict(fields, _target_="t"), label="config")
+def setup_dm_init(m, L, pol):
+    def setup(I):
+        Q, D = z3.Ints("max_order_quantity max_demand"); mean, cov = z3.Reals("mean cov"); c = [z3.Real(f"cost{i}") for i in range(4)]
+        I.assume(z3.And(Q >= 1, D >= 1, mean > 0, cov > 0))
+        cfg = cfg_obj(I, DM + "Config", dict(max_demand=D, demand_gamma_mean=mean, demand_gamma_cov=cov, max_useful_life=m, lead_time=L, max_order_quantity=Q,
+                      variable_order_cost=c[0], shortage_cost=c[1], wastage_cost=c[2], holding_cost=c[3], issue_policy=pol))
+        cls = I.load_module(DM.rsplit(".", 1)[0]).globals[DM.rsplit(".", 1)[1]]
+        return Ctx(self=Obj(cls, {}, label="problem"), _args=[cfg], c=c, Q=Q, D=D, m=m, L=L, pol=pol, I=I)
+    return setup
+def post_dm_init(c, q):
+    o = c.self; cc = o.attrs["cost_components"]
+    ok = z3.And(*[toz3(cc.get((i,))) == c.c[i] for i in range(4)], toz3(o.attrs["max_order_quantity"]) == c.Q, toz3(o.attrs["max_demand"]) == c.D,
+                toz3(o.attrs["_state_space"].shape[1]) == c.m + c.L - 1, toz3(o.attrs["_action_space"].shape[0]) == c.Q + 1, toz3(o.attrs["_random_event_space"].shape[0]) == c.D + 1,
+                toz3(o.attrs["demand_probabilities"].shape[0]) == c.D + 1)
+    issue = o.attrs["_issue_stock"].qualname.endswith("_issue_fifo" if c.pol == "fifo" else "_issue_lifo")
+    return z3.And(ok, z3.BoolVal(bool(issue)))
+contract(f"{DM}.__init__", scenarios=[(f"m{m}L{L}{pol}.", setup_dm_init(m, L, pol)) for m, L, pol in [(1, 1, "fifo"), (2, 2, "lifo"), (3, 1, "fifo")]],
+    ensures={"cost_vector_order_issuing_function_limits_and_space_sizes": post_dm_init})
+def setup_mj_init(m):
+    def setup(I):
+        Q, D = z3.Ints("max_order_quantity max_demand"); c = [z3.Real(f"cost{i}") for i in range(5)]; I.assume(z3.And(Q >= 1, D >= 1))
+        ns = tuple(z3.Real(f"n{i}") for i in range(7)); ds = tuple(z3.Real(f"d{i}") for i in range(7))
+        for x in ns + ds: I.assume(x > 0)
+        cfg = cfg_obj(I, MJ + "Config", dict(max_demand=D, weekday_demand_negbin_n=ns, weekday_demand_negbin_delta=ds, max_useful_life=m,
+                      useful_life_at_arrival_distribution_c_0=tuple(z3.Real(f"c0_{i}") for i in range(m - 1)), useful_life_at_arrival_distribution_c_1=tuple(z3.Real(f"c1_{i}") for i in range(m - 1)),
+                      max_order_quantity=Q, variable_order_cost=c[0], fixed_order_cost=c[1], shortage_cost=c[2], wastage_cost=c[3], holding_cost=c[4]))
+        cls = I.load_module(MJ.rsplit(".", 1)[0]).globals[MJ.rsplit(".", 1)[1]]
+        # the event space is built with a boolean-mask filter (bounded-only): stub that one constructor step
+        o = Obj(cls, {"_construct_random_event_space": Builtin(lambda: SArr((z3.Int("n_events"), m + 1), lambda idx: z3.Int("ev")), "event_space_stub")}, label="problem")
+        return Ctx(self=o, _args=[cfg], c=c, Q=Q, D=D, m=m, ns=ns, ds=ds, I=I)
+    return setup
+def post_mj_init(c, q):
+    o = c.self; cc = o.attrs["cost_components"]
+    return z3.And(*[toz3(cc.get((i,))) == c.c[i] for i in range(5)], toz3(o.attrs["max_order_quantity"]) == c.Q, toz3(o.attrs["max_demand"]) == c.D,
+                  toz3(o.attrs["_state_space"].shape[1]) == c.m, toz3(o.attrs["_action_space"].shape[0]) == c.Q + 1,
+                  *[toz3(o.attrs["weekday_demand_negbin_p"].get((w,))) == c.ns[w] / (c.ns[w] + c.ds[w]) for w in range(7)])
+contract(f"{MJ}.__init__", scenarios=[(f"m{m}.", setup_mj_init(m)) for m in (1, 3)],
+    ensures={"cost_vector_order_limits_space_sizes_and_success_probabilities": post_mj_init})
+def setup_hx_init(m):
+    def setup(I):
+        Qa, Qb = z3.Ints("Qa Qb"); ma, mb, sub, ca, cb, pa, pb = z3.Reals("mean_a mean_b sub cost_a cost_b price_a price_b")
+        I.assume(z3.And(Qa >= 1, Qb >= 1, ma > 0, mb > 0, sub >= 0, sub <= 1))
+        cfg = cfg_obj(I, HX + "Config", dict(max_useful_life=m, demand_poisson_mean_a=ma, demand_poisson_mean_b=mb, substitution_probability=sub, variable_order_cost_a=ca, variable_order_cost_b=cb,
+                      sales_price_a=pa, sales_price_b=pb, max_order_quantity_a=Qa, max_order_quantity_b=Qb))
+        cls = I.load_module(HX.rsplit(".", 1)[0]).globals[HX.rsplit(".", 1)[1]]
+        # pu / pz are filled by Python loops over scipy calls (bounded-only): stub the two table builders
+        o = Obj(cls, {"_calculate_pu": Builtin(lambda: "pu", "pu_stub"), "_calculate_pz": Builtin(lambda: "pz", "pz_stub")}, label="problem")
+        return Ctx(self=o, _args=[cfg], Qa=Qa, Qb=Qb, ca=ca, cb=cb, pa=pa, pb=pb, m=m, I=I)
+    return setup
+def post_hx_init(c, q):
+    o = c.self; vc, sp = o.attrs["variable_order_costs"], o.attrs["sales_prices"]
+    MDmax = z3.If(c.Qa >= c.Qb, c.Qa, c.Qb)
+    return z3.And(toz3(vc.get((0,))) == c.ca, toz3(vc.get((1,))) == c.cb, toz3(sp.get((0,))) == c.pa, toz3(sp.get((1,))) == c.pb,
+                  toz3(o.attrs["max_stock_a"]) == c.Qa * c.m, toz3(o.attrs["max_stock_b"]) == c.Qb * c.m, toz3(o.attrs["max_demand"]) == c.m * (MDmax + 2),
+                  toz3(o.attrs["_state_space"].shape[1]) == 2 * c.m, toz3(o.attrs["_action_space"].shape[0]) == (c.Qa + 1) * (c.Qb + 1),
+                  toz3(o.attrs["_random_event_space"].shape[0]) == (c.Qa * c.m + 1) * (c.Qb * c.m + 1))
+contract(f"{HX}.__init__", scenarios=[(f"m{m}.", setup_hx_init(m)) for m in (1, 2)],
+    ensures={"cost_and_price_vectors_stock_limits_truncation_point_and_space_sizes": post_hx_init})
+def setup_fo_init(I):
+    S = z3.Int("S"); r1, r2, p = z3.Reals("r1 r2 p"); I.assume(z3.And(S >= 1, p >= 0, p <= 1))
+    cfg = cfg_obj(I, FO + "Config", dict(S=S, r1=r1, r2=r2, p=p))
+    cls = I.load_module(FO.rsplit(".", 1)[0]).globals[FO.rsplit(".", 1)[1]]
+    return Ctx(self=Obj(cls, {}, label="problem"), _args=[cfg], S=S, r1=r1, r2=r2, p=p, I=I)
+contract(f"{FO}.__init__", setup=setup_fo_init,
+    ensures={"parameters_and_space_sizes": lambda c, q: z3.And(toz3(c.self.attrs["S"]) == c.S, toz3(c.self.attrs["r1"]) == c.r1, toz3(c.self.attrs["r2"]) == c.r2, toz3(c.self.attrs["p"]) == c.p,
+                 toz3(c.self.attrs["_state_space"].shape[0]) == c.S, toz3(c.self.attrs["_action_space"].shape[0]) == 2, toz3(c.self.attrs["_random_event_space"].shape[0]) == 2)})
